@@ -51,7 +51,7 @@ func exploreSpace(c *fw.Ctx, prop string, sc *e2x.Scenario, bound int, maxExecPe
 					r.Fail(v.Key+"/"+sc.Name, "%s\nchoices: %v\nschedule:\n%s", v.Detail, v.Choices, v.Schedule)
 				}
 				r.Sample(func() any {
-					return map[string]any{"scenario": sc.Name, "subtree_prefix": pt.Prefix, "leaf": pt.Leaf, "executions": st.Executions, "outcomes": keys(st.Outcomes)}
+					return map[string]any{"scenario": sc.Name, "subtree_prefix": pt.Prefix, "leaf": pt.Leaf, "executions": st.Executions, "outcomes": keys(st.Outcomes), "first_schedule_of_this_subtree": st.FirstSchedule}
 				})
 			})
 		}
